@@ -2240,7 +2240,12 @@ def range_as_built(I, node, term, st):
     return True
 
 def is_iter_step(cal):
-    """'next' / 'next_back' when the callee is Iterator::next / DoubleEndedIterator::next_back (of whatever iterator type), else None"""
+    """'next' / 'next_back' when the callee is Iterator::next / DoubleEndedIterator::next_back (of whatever iterator type), else None.
+    VecDeque::pop_front / pop_back are the same two steps on a deque (std: "removes the first element and returns it, or None if
+    the deque is empty" / "removes the last element ..."): a deque is represented by its elements front to back, and
+    `VecDeque::from(vec)` keeps the vector's order."""
+    if cal.startswith('alloc::collections::vec_deque::VecDeque::<T, A>::pop_'):
+        return {'pop_front': 'next', 'pop_back': 'next_back'}.get(cal.rsplit('::', 1)[-1])
     if cal == 'core::iter::traits::iterator::Iterator::next' or cal.endswith(' as core::iter::traits::iterator::Iterator>::next'):
         return 'next'
     if cal == 'core::iter::traits::double_ended::DoubleEndedIterator::next_back' or cal.endswith(' as core::iter::traits::double_ended::DoubleEndedIterator>::next_back'):
@@ -2812,7 +2817,7 @@ def builtin_summary(I, cal, args, node, st):
     if name == 'input_len' and 'nom::traits::InputLength' in cal and len(args) == 1 and args[0][0] == 'lit' and isinstance(args[0][1], (bytes, str)):
         # nom's InputLength for &[u8] / &str is `self.len()`: the number of octets
         return [Out('val', ('lit', len(args[0][1].encode('utf-8') if isinstance(args[0][1], str) else args[0][1])), st)]
-    if name in ('is_empty', 'len') and args and args[0][0] == 'vec' and cal.startswith('alloc::vec::Vec'):
+    if name in ('is_empty', 'len') and args and args[0][0] == 'vec' and (cal.startswith('alloc::vec::Vec') or (I.places and cal.startswith('alloc::collections::vec_deque::VecDeque::<T, A>::'))):
         return [Out('val', ('lit', len(args[0][1]) == 0 if name == 'is_empty' else len(args[0][1])), st)]
     if name == 'is_empty' and args and args[0][0] == 'vecpush' and cal.startswith('alloc::vec::Vec'):
         return [Out('val', FALSE, st)]          # a vector something was pushed to is not empty, whatever it held before
